@@ -78,10 +78,109 @@ func evalParse(w wParse) kit.Result {
 		return kit.Bad("parse:wrong-argument:arg-"+pos, "New(%d, %q).Argument = %d, want %d (type %q)", w.Code, msg, e.Argument, want, e.Type)
 	}
 	// the helpers must agree with the fields
-	if !e.IsType(e.Type) || !tgerr.Is(e, e.Type) || !tgerr.IsCode(e, w.Code) {
-		return kit.Bad("parse:helpers-disagree", "IsType/Is/IsCode disagree with the fields of %+v", *e)
+	_, asOK := tgerr.AsType(fmt.Errorf("wrapped: %w", e), e.Type)
+	if !e.IsType(e.Type) || !tgerr.Is(e, e.Type) || !tgerr.IsCode(e, w.Code) || !asOK {
+		return kit.Bad("parse:helpers-disagree", "IsType/Is/IsCode/AsType disagree with the fields of %+v", *e)
 	}
 	return kit.OKo("parse/arg-" + pos)
+}
+
+// genWords returns every word of 1..maxLen characters over chars that is not digits only, in a fixed order.
+// With chars = letters + digits this is every word shape at once: letters only, digits+letters,
+// letters+digits, digits in the middle, digits on both sides, and - because the arguments are drawn from the
+// same digits - every relation between the digits of a word and the argument (equal, argument is a prefix /
+// suffix / infix of the word's digit run, disjoint, differing only by leading zeros).
+func genWords(chars string, maxLen int) []string {
+	var out []string
+	var rec func(cur string)
+	rec = func(cur string) {
+		if cur != "" && strings.Trim(cur, "0123456789") != "" {
+			out = append(out, cur)
+		}
+		if len(cur) == maxLen {
+			return
+		}
+		for _, ch := range chars {
+			rec(cur + string(ch))
+		}
+	}
+	rec("")
+	return out
+}
+
+// genDigits returns every digit string of 1..maxLen characters over digits.
+func genDigits(digits string, maxLen int) []string {
+	var out []string
+	var rec func(cur string)
+	rec = func(cur string) {
+		if cur != "" {
+			out = append(out, cur)
+		}
+		if len(cur) == maxLen {
+			return
+		}
+		for _, ch := range digits {
+			rec(cur + string(ch))
+		}
+	}
+	rec("")
+	return out
+}
+
+// wMulti: a message with at least one word and at least two digits-only parts. The statement speaks of
+// messages with ONE numeric argument, so it is silent about which number is "the" argument here; every
+// reading is accepted: any non-empty subset of the numeric parts is removed from the type and the
+// argument is one of the removed numbers, or the message is not split at all (Type = Message,
+// Argument = 0). What no reading allows is a type that is not made of whole parts of the message.
+type wMulti struct {
+	Parts []string `json:"parts"`
+}
+
+func isNumber(p string) bool { return p != "" && strings.Trim(p, "0123456789") == "" }
+
+func evalMulti(w wMulti) kit.Result {
+	msg := strings.Join(w.Parts, "_")
+	var numIdx []int
+	for i, p := range w.Parts {
+		if isNumber(p) {
+			numIdx = append(numIdx, i)
+		}
+	}
+	if len(numIdx) < 2 || len(numIdx) == len(w.Parts) || len(numIdx) > 8 {
+		return kit.Bad("harness-error", "multi witness %q needs a word and 2..8 numbers", msg)
+	}
+	e := tgerr.New(400, msg)
+	if e.Code != 400 || e.Message != msg {
+		return kit.Bad("parse:code-or-message-changed", "New(400, %q) = %+v", msg, *e)
+	}
+	if e.Type == msg && e.Argument == 0 {
+		return kit.OKo("multi/not-split")
+	}
+	for mask := 1; mask < 1<<len(numIdx); mask++ {
+		removed := map[int]bool{}
+		argOK := false
+		for k, i := range numIdx {
+			if mask&(1<<k) != 0 {
+				removed[i] = true
+				if v, err := strconv.ParseInt(w.Parts[i], 10, 64); err == nil && v == int64(e.Argument) {
+					argOK = true
+				}
+			}
+		}
+		var rest []string
+		for i, p := range w.Parts {
+			if !removed[i] {
+				rest = append(rest, p)
+			}
+		}
+		if e.Type == strings.Join(rest, "_") && argOK {
+			if mask == 1<<len(numIdx)-1 {
+				return kit.OKo("multi/all-numbers-removed")
+			}
+			return kit.OKo("multi/some-numbers-removed")
+		}
+	}
+	return kit.Bad("parse:multi-number:type-not-whole-parts", "New(400, %q) = Type %q Argument %d: under no reading (remove any of the numeric parts, argument one of them) is this the message without its numeric part(s)", msg, e.Type, e.Argument)
 }
 
 // arbitrary strings: no statement beyond "does not crash"; New must keep code and message.
@@ -305,6 +404,7 @@ func evalWait(w wWait) kit.Result {
 func main() {
 	kit.Main("C40", "exploration", func(c *kit.Ctx) {
 		fp := kit.NewFamily(c, "parse", evalParse)
+		fm := kit.NewFamily(c, "parse-multi", evalMulti)
 		fa := kit.NewFamily(c, "any", evalAny)
 		fw := kit.NewFamily(c, "wait", evalWait)
 		if c.Replaying() {
@@ -319,36 +419,79 @@ func main() {
 			anyDepth = 5
 		}
 		anyTokens := []string{"_", "A", "FLOOD", "WAIT", "1", "42", "99999999999999999999", "-", "a", " ", "é", "٣", "hex:ff", "hex:00", "%d"}
+		// generated word shapes: every word over letters+digits up to 3 characters, arguments over the same digits
+		shapeChars, shapeDigits := "A012", "012"
+		smallChars, smallDigits := "A12", "12"
+		shapeLists, smallLists := 2, 3
+		if c.Thorough() {
+			shapeLists = 3 // contains the small space
+		}
+		shapeWords, shapeArgs := genWords(shapeChars, 3), genDigits(shapeDigits, 2)
+		smallWords, smallArgs := genWords(smallChars, 3), genDigits(smallDigits, 2)
+		multiWords, multiNums := genWords(smallChars, 2), genDigits(smallDigits, 2)
 		c.Rule("parse: every message of 1..%d words from %v (words with digits, never digits only) and one decimal argument from %v inserted at every "+
-			"position, error codes {400, 420}; oracle: Type is the message without the number (remaining words joined by '_'; the reading that keeps both "+
-			"neighbouring underscores is accepted too), Argument is the number, Code/Message unchanged, IsType/Is/IsCode agree. any: every sequence of 0..%d "+
+			"position, error codes {400, 420}; plus generated word shapes, so that every relation between the digits inside a word and the argument occurs "+
+			"(equal, argument is a prefix/suffix/infix of the word's digits, disjoint, leading zeros, the same word repeated): every list of 1..%d words from "+
+			"the %d words of <=3 characters over %q that are not digits only x every argument of <=2 digits over %q (%d) x every position, and every list of "+
+			"1..%d words from the %d such words over %q x the %d arguments over %q x every position, and every list of 1..4 words from the %d such words of <=2 characters; "+
+			"oracle: Type is the message without the number (remaining words joined by '_'; the reading that keeps both "+
+			"neighbouring underscores is accepted too), Argument is the number, Code/Message unchanged, IsType/Is/IsCode/AsType agree with the expected type. "+
+			"parse-multi (outside the statement's 'one numeric argument', lenient oracle): every arrangement of 1..2 words from the %d words of <=2 characters over %q and "+
+			"2 numbers from the %d arguments over %q; oracle: Type is the message with a non-empty subset of its numeric parts removed and Argument is one of the "+
+			"removed numbers, or the message is left unsplit - never a type that is not made of whole parts. any: every sequence of 0..%d "+
 			"tokens from %q (arbitrary strings: separators only, several or overflowing numbers, lower case, non-ASCII digits, raw bytes); oracle: no panic and "+
 			"Code/Message unchanged. wait: both flood kinds x arguments {0,1,3,86400} x plain / wrapped error x {no cancel, cancel before the call, cancel while "+
 			"waiting, cancel after the timer fired} with an injected fake clock.Clock whose timer is fired by the harness; oracle: AsFloodWait = argument seconds; "+
 			"FloodWait takes exactly one timer from the injected clock, for more than the argument seconds (safety margin > 0), does not return before the timer "+
-			"fires unless cancelled, returns (true, the error) after it fired and (false, context.Canceled) when cancelled first.", maxWords, words, args, anyDepth, anyTokens)
+			"fires unless cancelled, returns (true, the error) after it fired and (false, context.Canceled) when cancelled first.", maxWords, words, args,
+			shapeLists, len(shapeWords), shapeChars, shapeDigits, len(shapeArgs), smallLists, len(smallWords), smallChars, len(smallArgs), smallDigits, len(multiWords),
+			len(multiWords), smallChars, len(multiNums), smallDigits, anyDepth, anyTokens)
 		c.Assume("a 60 s real-time watchdog only turns a hang of FloodWait into a report; no verdict depends on wall-clock time; 'returned early' is detected after 200 scheduler yields (can only under-report)")
 
 		// parse
-		var rec func(ws []string)
-		rec = func(ws []string) {
-			if len(ws) >= 1 {
-				for _, a := range args {
-					for pos := 0; pos <= len(ws); pos++ {
-						for _, code := range []int{400, 420} {
-							fp.Eval(wParse{Words: append([]string{}, ws...), Arg: a, Pos: pos, Code: code})
+		enumParse := func(words, args []string, maxWords int, codes []int) {
+			var rec func(ws []string)
+			rec = func(ws []string) {
+				if len(ws) >= 1 {
+					for _, a := range args {
+						for pos := 0; pos <= len(ws); pos++ {
+							for _, code := range codes {
+								fp.Eval(wParse{Words: append([]string{}, ws...), Arg: a, Pos: pos, Code: code})
+							}
 						}
 					}
 				}
+				if len(ws) == maxWords {
+					return
+				}
+				for _, w := range words {
+					rec(append(ws, w))
+				}
 			}
-			if len(ws) == maxWords {
-				return
-			}
-			for _, w := range words {
-				rec(append(ws, w))
+			rec(nil)
+		}
+		enumParse(words, args, maxWords, []int{400, 420})
+		enumParse(shapeWords, shapeArgs, shapeLists, []int{400})
+		enumParse(smallWords, smallArgs, smallLists, []int{400})
+		enumParse(multiWords, smallArgs, 4, []int{400})
+		// several numeric parts: arrangements of 1..2 words and 2 numbers
+		for _, n1 := range multiNums {
+			for _, n2 := range multiNums {
+				for _, w1 := range multiWords {
+					fm.Eval(wMulti{[]string{w1, n1, n2}})
+					fm.Eval(wMulti{[]string{n1, w1, n2}})
+					fm.Eval(wMulti{[]string{n1, n2, w1}})
+					for _, w2 := range multiWords {
+						fm.Eval(wMulti{[]string{w1, w2, n1, n2}})
+						fm.Eval(wMulti{[]string{w1, n1, w2, n2}})
+						fm.Eval(wMulti{[]string{w1, n1, n2, w2}})
+						fm.Eval(wMulti{[]string{n1, w1, w2, n2}})
+						fm.Eval(wMulti{[]string{n1, w1, n2, w2}})
+						fm.Eval(wMulti{[]string{n1, n2, w1, w2}})
+					}
+				}
 			}
 		}
-		rec(nil)
 		// arbitrary strings
 		for n := 0; n <= anyDepth; n++ {
 			idx := make([]int, n)
